@@ -39,7 +39,7 @@ def run(tier):
     res.floor("C14.R2", 8)
     res.floor("C14.R3", 13)
     res.floor("C14.R4", 1)
-    res.floor("C14.R5", 8)
+    res.floor("C14.R5", 10)
     res.explanation = ("constant table of the 7 registered claim keys over all 17 constructors; every Serialize impl of a claim writes exactly one map entry (key field, value field); abstract interpretation of GenericBuilder::set_claim over "
                        "{empty key} x JSON variant x {one-entry map of that key}: stored under the claim's key with HashMap::insert, value = the entry's value for a one-entry map of that key, otherwise the serialised value itself; "
                        "build_payload_from_claims maps every stored (key, value) to (key, to_value(value)) without further transformation; wrap_claims / wrap_value hand every entry on (identity on scalars, element-wise on arrays and objects, no filtering adaptor); writers of the claim map; the parser returns the parsed authenticated payload unmodified")
@@ -205,7 +205,7 @@ def payload(res, facts):
         res.violate("C14.R3", "GenericBuilder::build_payload_from_claims", "anchor missing", "not found")
         return
     v = M.view(facts, b)
-    I, me, outs = _fpai.run_on_self(facts, b, stubs=[r"generic_builder::wrap_claims$"])
+    I, me, outs = _fpai.run_on_self(facts, b, stubs=[r"::wrap_claims$"])
     n_ok = 0
     for o in outs:
         r = I.resolve(o.state, o.value) if o.kind == "return" else None
@@ -260,151 +260,83 @@ def payload(res, facts):
 
 
 def wrap(res, facts):
-    """C14.R5: the build-time helpers wrap_claims / wrap_value hand every entry on: wrap_claims(map) is the object holding, for every
-    (k, v) of the map, exactly (k, wrap_value(v)); wrap_value is the identity on Null / Bool / Number / String, maps every element of an
-    array and every member of an object through itself and keeps keys - no adaptor that could drop, add or reorder entries.
-    Decided by abstract interpretation with per-element summaries of the iterator chains (rules/models.py m_collect_map)."""
-    def stub(I, st, args):
-        return A.Sym("wrap_value(%s)" % MD.describe(I, st, args[0]))
+    """C14.R5: the build-time helpers wrap_claims / wrap_value hand every entry on.  They are interpreted on *concrete small inputs* with
+    symbolic members - the empty and a two-entry claim map; Null, Bool, Number, String, the empty and a two-element array, the empty and a
+    two-member object - with the recursive call of wrap_value summarised.  Whatever the style (iterator chains, loops, intermediate
+    collections, helper functions) the result must be: identity on scalars; [wrap_value(e1), wrap_value(e2)] for an array;
+    {k1: wrap_value(v1), k2: wrap_value(v2)} for an object / the claim map - no entry dropped, added, re-keyed or left unwrapped."""
+    from .. import models_iter as MI
+    V = "serde_json::value::Value"
 
-    def interp():
+    def val(variant, payload=None):
+        return A.Struct(V, variant, {} if payload is None else {"0": payload})
+
+    def run(body, arg, recursive_stub):
         I = A.Interp(facts, MD.MODELS)
-        I.generic_pipelines = True
-        I.fn_stubs = [(re.compile(r"generic_builder::wrap_value$"), stub)]
-        return I
+        I.concrete_maps = True
+        calls = []
 
-    def stages(o, src_name):
-        """[(kind, detail)] of the collect stages that lead from the collection `src_name` to the value returned"""
-        out = []
-        cur = src_name
-        for e in o.state.events:
-            if e[0] != "collect_map":
-                continue
-            if e[1] != cur:
-                out.append(("bad", "a collection is built from %s, not from %s" % (e[1], cur)))
-                continue
-            lossy = e[3] if len(e) > 3 else []
-            if lossy:
-                out.append(("bad", "the elements of %s pass through %s, which can drop, add or reorder entries" % (cur, ", ".join(lossy))))
-            if len(e[2]) != 1:
-                out.append(("bad", "the per-element mapping of %s depends on the element (%d alternatives)" % (cur, len(e[2]))))
-            for kd, vd, conds, unm in e[2]:
-                if unm:
-                    out.append(("bad", "unmodelled call in the per-element mapping: %s" % (unm,)))
-                elif (kd, vd) in ((None, "entry"), ("entry.0", "entry.1")):
-                    out.append(("id", cur))
-                elif (kd, vd) in ((None, "wrap_value(entry)"), ("entry.0", "wrap_value(entry.1)")):
-                    out.append(("wrap", cur))
-                else:
-                    out.append(("bad", "an element of %s is mapped to (%s, %s) instead of (key, wrap_value(value))" % (cur, kd, vd)))
-            cur = "collected(%s)" % cur
-        return out, cur
+        def stub(I_, st, args):
+            d = MD.describe(I_, st, args[0])
+            v_ = MD.deref(I_, st, args[0])
+            if isinstance(v_, A.Sym):
+                d = v_.name
+            return A.Sym("wrap_value(%s)" % d)
+        if recursive_stub:
+            I.fn_stubs = [(re.compile(r"::wrap_value$"), stub)]
+        st = A.State()
+        return I, I.run(body, [arg], st)
 
-    def loop_style(I, o, src_name, inner, array=False):
-        """problems of a hand-written loop `for x in src { out.insert(k, wrap_value(v)) / out.push(wrap_value(x)) }`; None when the path has no loop"""
-        items = [e for e in o.state.events if e[0] == "iter_item"]
-        inserts = [e for e in o.state.events if e[0] == "Map::insert" or (e[0].endswith("::insert") and isinstance(e[1], list))]
-        looped = any(c_ in ("iterator ends", "iterator yields an item") for c_ in o.state.cond)
-        if not items and not inserts and not looped and not (isinstance(inner, A.Seq) and inner.elems is not None):
-            return None
-        pr = []
-        for e in items:
-            if e[2] != src_name:
-                pr.append("the loop ranges over %s, not over %s" % (e[2], src_name))
-        if array:
-            got = [getattr(MD.deref(I, o.state, x), "name", repr(x)) for x in (inner.elems if isinstance(inner, A.Seq) and inner.elems is not None else [])]
-            want = ["wrap_value(%s)" % e[1] for e in items]
-            if got != want:
-                pr.append("the array built is %s, expected %s (every element once, in order, through wrap_value)" % (got, want))
-            return pr
-        got = []
-        for e in inserts:
-            if e[0] == "Map::insert":
-                got.append((e[1], e[2][1] if isinstance(e[2], tuple) else str(e[2]), e[3][1] if len(e) > 3 and isinstance(e[3], tuple) else "?"))
-            else:
-                a = e[1]
-                got.append((str(a[0]), a[1][1] if isinstance(a[1], tuple) else str(a[1]), a[2][1] if len(a) > 2 and isinstance(a[2], tuple) else "?"))
-        want = [("%s.0" % e[1], "wrap_value(%s.1)" % e[1]) for e in items]
-        if [(k, v_) for _t, k, v_ in got] != want:
-            pr.append("the entries inserted are %s, expected %s (every entry once, under its own key, its value through wrap_value)" % ([(k, v_) for _t, k, v_ in got], want))
-        tname = getattr(inner, "name", None)
-        if any(t != tname and tname not in t for t, _k, _v in got):
-            pr.append("entries are inserted into %s but %s is returned" % (sorted(set(t for t, _k, _v in got)), tname))
-        return pr
+    def show(I, st, x):
+        x = MD.deref(I, st, x)
+        if isinstance(x, A.Struct) and x.adt == V:
+            if x.variant in ("Object", "Array"):
+                return "%s(%s)" % (x.variant, show(I, st, x.fields.get("0")))
+            if x.variant == "Null":
+                return "Null"
+            return "%s(%s)" % (x.variant, show(I, st, x.fields.get("0")))
+        if MI.is_map(x):
+            ents = [(MD.str_key(I, st, e.fields["0"])[1], show(I, st, e.fields["1"])) for e in MI._entries(x)]
+            return "{" + ", ".join("%s: %s" % kv for kv in sorted(ents)) + "}"
+        if isinstance(x, A.Seq) and x.elems is not None:
+            return "[" + ", ".join(show(I, st, e) for e in x.elems) + "]"
+        if isinstance(x, A.Sym):
+            return x.name
+        return repr(x)
 
-    for fn in ("wrap_claims", "wrap_value"):
-        b = _fpai.find_body(facts, r"generic_builder::%s$" % fn)
+    two_map = lambda: MI.mapv("m", [(A.StrV("k1"), A.Sym("V1")), (A.StrV("k2"), A.Sym("V2"))])
+    cases = {
+        "wrap_claims": [("empty claim map", lambda: MI.mapv("m", []), "Object({})"), ("claim map {k1: V1, k2: V2}", two_map, "Object({k1: wrap_value(V1), k2: wrap_value(V2)})")],
+        "wrap_value": [("Null", lambda: val("Null"), "Null"), ("Bool", lambda: val("Bool", A.Sym("B")), "Bool(B)"), ("Number", lambda: val("Number", A.Sym("N")), "Number(N)"),
+                       ("String", lambda: val("String", A.Sym("S")), "String(S)"), ("empty array", lambda: val("Array", A.Seq("arr", A.Aff(0), [], kind="vec")), "Array([])"),
+                       ("array [E1, E2]", lambda: val("Array", A.Seq("arr", A.Aff(2), [A.Sym("E1"), A.Sym("E2")], kind="vec")), "Array([wrap_value(E1), wrap_value(E2)])"),
+                       ("empty object", lambda: val("Object", MI.mapv("m", [])), "Object({})"), ("object {k1: V1, k2: V2}", lambda: val("Object", two_map()), "Object({k1: wrap_value(V1), k2: wrap_value(V2)})")],
+    }
+    for fn, cs in cases.items():
+        b = _fpai.find_body(facts, r"^crate::generic::.*::%s$" % fn)
         if b is None:
             res.oblige(False)
-            res.violate("C14.R5", "generic_builder::" + fn, "anchor missing", "not found")
+            res.violate("C14.R5", "generic builders::" + fn, "anchor missing", "not found")
             continue
         v = M.view(facts, b)
-        I = interp()
-        st = A.State()
-        arg = A.Sym("claims") if fn == "wrap_claims" else MD.json_sym("value")
-        outs = I.run(b, [arg], st)
-        seen = set()
-        if not outs:
-            res.oblige(False)
-            res.violate("C14.R5", b["id"], "no outcome", "abstract interpretation found no path (fail closed)", file=v.file(), line=b["line"])
-        for o in outs:
-            cond = " & ".join(o.state.cond)
+        for name, mk, want in cs:
+            I, outs = run(b, mk(), True)
             problems = []
-            r = I.resolve(o.state, o.value) if o.kind == "return" else None
-            if o.kind != "return" or _fpai.undecided(o):
-                problems.append("path not decided (%s; unmodelled %s)" % (o.kind, o.state.unmodelled))
-            elif fn == "wrap_claims":
-                inner = MD.deref(I, o.state, r.fields.get("0")) if isinstance(r, A.Struct) and r.variant == "Object" else None
-                lp = loop_style(I, o, "claims", inner) if not any(e[0] == "collect_map" for e in o.state.events) else None
-                if lp is not None:
-                    problems += lp
-                    if not (isinstance(r, A.Struct) and r.variant == "Object"):
-                        problems.append("the result is %r, not an object" % (r,))
-                else:
-                    st_, last = stages(o, "claims")
-                    problems += [d for k, d in st_ if k == "bad"]
-                    if [k for k, _ in st_].count("wrap") != 1:
-                        problems.append("wrap_value must be applied to every value exactly once; stages: %s" % ([k for k, _ in st_],))
-                    if not (isinstance(inner, A.Sym) and inner.name == last):
-                        problems.append("the result is %r, not the object collected from every entry of the claim map" % (r,))
-                seen.add("map")
-            else:
-                cls = [c[len("value is "):] for c in o.state.cond if c.startswith("value is ")]
-                cl = cls[0] if cls else "?"
-                inner = MD.deref(I, o.state, r.fields.get("0")) if isinstance(r, A.Struct) and r.fields else None
-                if cl == "Null":
-                    if not (isinstance(r, A.Struct) and r.variant == "Null"):
-                        problems.append("Null is mapped to %r" % (r,))
-                elif cl in ("Bool", "Number", "String"):
-                    if not (isinstance(r, A.Struct) and r.variant == cl and isinstance(inner, A.Sym) and inner.name == "value." + cl):
-                        problems.append("a %s is mapped to %r instead of itself" % (cl, r))
-                elif cl in ("Object", "Array"):
-                    st_, last = stages(o, "value." + cl)
-                    problems += [d for k, d in st_ if k == "bad"]
-                    empty = isinstance(inner, A.Seq) and inner.length == A.Aff(0) and cl == "Object" and any("is_empty" in c and not c.startswith("!") for c in o.state.cond)
-                    lp = loop_style(I, o, "value." + cl, inner, array=(cl == "Array")) if not st_ and not empty else None
-                    if not (isinstance(r, A.Struct) and r.variant == cl):
-                        problems.append("an %s is mapped to %r" % (cl, r))
-                    elif lp is not None:
-                        problems += lp
-                    elif not empty:
-                        if [k for k, _ in st_].count("wrap") != 1:
-                            problems.append("every element must pass through wrap_value exactly once; stages: %s" % ([k for k, _ in st_],))
-                        if not (isinstance(r, A.Struct) and r.variant == cl and isinstance(inner, A.Sym) and inner.name == last):
-                            problems.append("an %s is mapped to %r, not to the %s of its wrapped elements" % (cl, r, cl))
-                else:
-                    problems.append("unexpected value class %s" % cl)
-                seen.add(cl)
+            if not outs:
+                problems.append("no outcome")
+            for o in outs:
+                if o.kind != "return" or _fpai.undecided(o):
+                    problems.append("path not decided (%s; unmodelled %s; %s)" % (o.kind, o.state.unmodelled[:2], [n for n in o.state.notes if "undecided" in n][:1]))
+                    continue
+                got = show(I, o.state, o.value)
+                if got != want:
+                    problems.append("%s(%s) is %s, expected %s" % (fn, name, got, want))
             ok = not problems
             res.oblige(ok)
             if ok:
-                res.inst("C14.R5", "%s [%s]: every entry handed on (%s)" % (fn, cond[:60], "element-wise" if fn == "wrap_claims" or cl in ("Object", "Array") else "identity"))
+                res.inst("C14.R5", "%s(%s) = %s" % (fn, name, want))
             else:
-                res.violate("C14.R5", b["id"], "%s alters the claim set" % fn, "; ".join(sorted(set(problems)))[:500], file=v.file(), line=b["line"])
-        need = {"map"} if fn == "wrap_claims" else {"Null", "Bool", "Number", "String", "Array", "Object"}
-        if not need <= seen:
-            res.oblige(False)
-            res.violate("C14.R5", b["id"], "partition not covered", "abstract interpretation must cover %s; covered %s (fail closed)" % (sorted(need), sorted(seen)), file=v.file(), line=b["line"])
+                res.violate("C14.R5", b["id"], "%s alters the claim set (%s)" % (fn, name), "; ".join(sorted(set(problems)))[:500], file=v.file(), line=b["line"])
 
 
 def writers(res, facts):
